@@ -480,9 +480,7 @@ SORT_NAMES = ['b', '_a_1f', 'a', '_zz', 'c']
 
 def all_dags(n):
     names = SORT_NAMES[:n]
-    for perm_rank in itertools.permutations(range(n)):
-        # edges only from lower to higher rank: every DAG arises (several times) - dedupe by edge set
-        pass
+    # edges only from lower to higher rank of a permutation: every DAG arises (several times) - dedupe by edge set
     pairs = [(i, j) for i in range(n) for j in range(n) if i != j]
     seen = set()
     for rank in itertools.permutations(range(n)):
